@@ -8,8 +8,8 @@
      poulpy-bin-fhe/src/bdd_arithmetic/eval.rs Cmux::cmux
    faithfully: both branches (dsize = 1 / digit-grouped), `a_size mod dsize <> 0`, the (step = dsize, offset = dsize-di-1)
    selection, `res.set_size(pmat.size - max(dsize-di-2, 0))`, limb_offset = di, fold-in with add_assign, the limbs of
-   `res` that no product writes keep their PRIOR content (`res0`: zero in the `_default` entry points, whatever the
-   scratch held in cmux / automorphism_add / ...).  None = the call panics.
+   `res` that the first product does not write are zeroed by the (repaired) routines themselves: the prior content `res0`
+   of the accumulator does not matter (acc_start).  None = the call panics.
 
    The second half of the file is spec level: value of a column on the torus as an integer scaled by 2^P,
    `phase s ct = ct[0] + sum ct[i+1] (x) s_i` exact, and the deterministic worst-case envelope of the gadget product. *)
@@ -64,13 +64,27 @@ Definition gp_step (n cols_out R : nat) (a : cols_t) (a_size dsize dnum msize : 
           else map2 (fun p r => dft_add_assign p r) prod res)      (* res[j] += tmp[j], j < sz_r *)
   end.
 
-(* gglwe_product_dft / the product part of glwe_external_product_internal.
-   R = max_size (= current size on entry) of res, res0 = its prior content (cols_out columns of R limbs) *)
-Definition gadget_product (n cols_out R : nat) (res0 : cols_t) (a : cols_t) (a_size dsize dnum msize : nat)
+(* the digit loop started from the accumulator content `acc0` (cols_out columns of R limbs): dsize = 1 overwrites everything *)
+Definition gadget_product_from (n cols_out R : nat) (acc0 : cols_t) (a : cols_t) (a_size dsize dnum msize : nat)
            (clamp : bool) (m : pmat) : option cols_t :=
   if Nat.eqb dsize 0 then None
   else if Nat.eqb dsize 1 then Some (vmp_cols n cols_out R a a_size dnum msize 0 m)
-  else fold_left (gp_step n cols_out R a a_size dsize dnum msize clamp m) (seq 0 dsize) (Some res0).
+  else fold_left (gp_step n cols_out R a a_size dsize dnum msize clamp m) (seq 0 dsize) (Some acc0).
+
+(* what the digit-grouped branch makes of the prior content res0 of the accumulator before it accumulates into it
+   (repaired code): gglwe_product_dft calls res.zero() before the digit loop (all R limbs); glwe_external_product_internal
+   zeroes, after the first product, the limbs [written, ggsw.size) that this product did not write: together with the
+   overwrite of the limbs [0, written) the first msize limbs start from zero, limbs beyond msize (no caller has any) keep
+   their content. *)
+Definition acc_start (n cols_out R msize : nat) (clamp : bool) (res0 : cols_t) : cols_t :=
+  if clamp then zcols n cols_out R
+  else map (fun r0 => repeat (pzero n) (Nat.min msize (length r0)) ++ skipn msize r0) res0.
+
+(* gglwe_product_dft (clamp = true) / the product part of glwe_external_product_internal (clamp = false).
+   R = max_size (= current size on entry) of res, res0 = its prior content (cols_out columns of R limbs) *)
+Definition gadget_product (n cols_out R : nat) (res0 : cols_t) (a : cols_t) (a_size dsize dnum msize : nat)
+           (clamp : bool) (m : pmat) : option cols_t :=
+  gadget_product_from n cols_out R (acc_start n cols_out R msize clamp res0) a a_size dsize dnum msize clamp m.
 
 (* vec_znx_big_add_small_assign: limbs j < min(res.size, a.size) *)
 Definition add_small (big small : plimbs) : plimbs :=
